@@ -14,6 +14,13 @@ import SIM.Driver.Derive
 import SIM.Driver.Schema
 open SIM SIM.Driver
 
+/-- diagnostic: `decdbg <case> <root> <registry> <hexbytes>` prints what the registry-directed decoder reads -/
+def decdbg : P Verdict := do
+  let root ← P.nat
+  let reg ← P.registry
+  let bytes ← P.str
+  pure (.unmodelled (toString (repr (Value.decodeVal reg (reg.length + 64) root bytes))))
+
 def dispatch (stream : String) (toks : List String) : Verdict :=
   match stream with
   | "interner" => runP interner toks
@@ -29,6 +36,7 @@ def dispatch (stream : String) (toks : List String) : Verdict :=
   | "tinfo" => runP tinfoCase toks
   | "derive" => runP deriveCase toks
   | "schema" => runP schemaCase toks
+  | "decdbg" => runP decdbg toks
   | _ => .unmodelled ("unknown stream " ++ stream)
 
 partial def loop (h : IO.FS.Stream) (out : IO.FS.Stream) : IO Unit := do
